@@ -91,6 +91,149 @@ Proof.
   destruct ((m =? 4) || (m =? 6) || (m =? 9) || (m =? 11))%bool; lia.
 Qed.
 
+(** *** numbers of variable width: [getnum(value, false)] after [appendInt(b, v, 0)] *)
+
+(** the text does not begin with a digit (or is empty) *)
+Definition nodigit_start (s : bytes) : bool := match s with c :: _ => negb (is_digit c) | [] => true end.
+
+Definition two_digits (v : Z) : bytes :=
+  if v <? 10 then [Z.to_N (48 + v)] else [Z.to_N (48 + v / 10); Z.to_N (48 + v mod 10)].
+
+Lemma fmt_num0_small v : 0 <= v <= 99 -> fmt_num 0 v = two_digits v.
+Proof.
+  intros Hv.
+  assert (H : forallb (fun n => beq (fmt_num 0 (Z.of_nat n)) (two_digits (Z.of_nat n))) (seq 0 100) = true)
+    by (vm_compute; reflexivity).
+  rewrite forallb_forall in H. specialize (H (Z.to_nat v)).
+  rewrite Z2Nat.id in H by lia. apply beq_true_iff, H. apply in_seq. lia.
+Qed.
+
+Lemma fmt_num0_spec v : 0 <= v <= 99 ->
+  forallb is_digit (fmt_num 0 v) = true /\ fmt_num 0 v <> [].
+Proof.
+  intros Hv. rewrite fmt_num0_small by exact Hv. unfold two_digits.
+  assert (0 <= v / 10 <= 9) by lia.
+  assert (0 <= v mod 10 <= 9) by lia.
+  destruct (v <? 10) eqn:E; (split; [|discriminate]); cbn [forallb]; unfold is_digit; lia.
+Qed.
+
+Lemma get_num_fmt v rest : 0 <= v <= 99 -> nodigit_start rest = true ->
+  get_num (fmt_num 0 v ++ rest) = Some (v, rest).
+Proof.
+  intros Hv Hr. rewrite fmt_num0_small by exact Hv. unfold two_digits.
+  assert (Hq : 0 <= v / 10 <= 9) by lia.
+  assert (Hm : 0 <= v mod 10 <= 9) by lia.
+  assert (Hdv : forall x, 0 <= x <= 9 -> digit_val (Z.to_N (48 + x)) = Some x).
+  { intros x Hx. unfold digit_val. replace (is_digit (Z.to_N (48 + x))) with true by (unfold is_digit; lia).
+    f_equal. lia. }
+  destruct (v <? 10) eqn:E; cbn [app get_num].
+  - rewrite Hdv by lia. destruct rest as [|c2 r2]; [reflexivity|]. cbn [nodigit_start] in Hr.
+    unfold digit_val. destruct (is_digit c2); [discriminate|reflexivity].
+  - rewrite !Hdv by lia. f_equal. f_equal. pose proof (Z.div_mod v 10). lia.
+Qed.
+
+Lemma get_num_prefix s v s' : get_num s = Some (v, s') ->
+  exists p, s = p ++ s' /\ forallb is_digit p = true /\ p <> [] /\ 0 <= v <= 99.
+Proof.
+  unfold get_num, digit_val. intros H. destruct s as [|c1 r1]; [discriminate|].
+  destruct (is_digit c1) eqn:E1; [|discriminate].
+  assert (B1 : 0 <= Z.of_N (c1 - 48) <= 9) by (unfold is_digit in E1; lia).
+  destruct r1 as [|c2 r2].
+  - injection H as <- <-. exists [c1]. cbn [forallb]. rewrite E1. repeat split; try discriminate; lia.
+  - destruct (is_digit c2) eqn:E2.
+    + injection H as <- <-. exists [c1; c2]. cbn [forallb]. rewrite E1, E2.
+      assert (B2 : 0 <= Z.of_N (c2 - 48) <= 9) by (unfold is_digit in E2; lia).
+      repeat split; try discriminate; lia.
+    + injection H as <- <-. exists [c1]. cbn [forallb]. rewrite E1. repeat split; try discriminate; lia.
+Qed.
+
+(** *** month names: [lookup] after [Month.String] *)
+
+Lemma month_cases m : 1 <= m <= 12 ->
+  m = 1 \/ m = 2 \/ m = 3 \/ m = 4 \/ m = 5 \/ m = 6 \/ m = 7 \/ m = 8 \/ m = 9 \/ m = 10 \/ m = 11 \/ m = 12.
+Proof. lia. Qed.
+
+Ltac each_month m Hm :=
+  let H := fresh "Hcase" in
+  pose proof (month_cases m Hm) as H;
+  repeat (destruct H as [H|H]; [subst m|]); [..|subst m].
+
+(** the long table finds the name [Format] writes, whatever follows it (no name is the beginning of another) *)
+Lemma lookup_long_name m rest : 1 <= m <= 12 ->
+  lookup_name long_months 1 (month_name m ++ rest) = Some (m, rest).
+Proof. intros Hm. each_month m Hm; vm_compute; reflexivity. Qed.
+
+Lemma lookup_short_name m rest : 1 <= m <= 12 ->
+  lookup_name short_months 1 (firstn 3 (month_name m) ++ rest) = Some (m, rest).
+Proof. intros Hm. each_month m Hm; vm_compute; reflexivity. Qed.
+
+(** what [Format] writes for [Jan] is the entry of the short table *)
+Lemma short_name_table m : 1 <= m <= 12 -> firstn 3 (month_name m) = nth (Z.to_nat (m - 1)) short_months [].
+Proof. intros Hm. each_month m Hm; reflexivity. Qed.
+
+Definition is_letter (c : N) : bool := ((65 <=? c) && (c <=? 90) || (97 <=? c) && (c <=? 122))%N.
+
+Lemma month_name_letters m : 1 <= m <= 12 ->
+  forallb is_letter (month_name m) = true /\ (3 <= length (month_name m))%nat.
+Proof. intros Hm. each_month m Hm; vm_compute; split; (reflexivity || lia). Qed.
+
+Lemma short_name_letters m : 1 <= m <= 12 ->
+  forallb is_letter (firstn 3 (month_name m)) = true /\ length (firstn 3 (month_name m)) = 3%nat.
+Proof. intros Hm. each_month m Hm; vm_compute; split; reflexivity. Qed.
+
+Lemma match_prefix_split name : forall val r, match_prefix name val = Some r ->
+  exists p, val = p ++ r /\ length p = length name /\ Forall2 (fun v c => match_byte v c = true) p name.
+Proof.
+  induction name as [|c name IH]; intros val r H.
+  - cbn in H. injection H as <-. exists []. repeat split. constructor.
+  - cbn [match_prefix] in H. destruct val as [|v val]; [discriminate|].
+    destruct (match_byte v c) eqn:E; [|discriminate]. destruct (IH _ _ H) as [p [-> [Hl Hf]]].
+    exists (v :: p). cbn [app length]. repeat split; [congruence|]. constructor; assumption.
+Qed.
+
+Lemma lookup_name_split tab : forall i s v r, lookup_name tab i s = Some (v, r) ->
+  i <= v < i + Z.of_nat (length tab)
+  /\ exists p, s = p ++ r
+       /\ Forall2 (fun x c => match_byte x c = true) p (nth (Z.to_nat (v - i)) tab []).
+Proof.
+  induction tab as [|name tab IH]; intros i s v r H; [discriminate|]. cbn [lookup_name] in H.
+  destruct (match_prefix name s) as [r0|] eqn:E.
+  - injection H as <- <-. split; [cbn [length]; lia|]. destruct (match_prefix_split _ _ _ E) as [p [-> [_ Hf]]].
+    exists p. split; [reflexivity|]. replace (i - i) with 0 by lia. exact Hf.
+  - apply IH in H. destruct H as [Hr [p [-> Hf]]]. split; [cbn [length]; lia|]. exists p. split; [reflexivity|].
+    replace (Z.to_nat (v - i)) with (S (Z.to_nat (v - (i + 1)))) by lia. exact Hf.
+Qed.
+
+(** a byte that matches a letter of a table is a letter *)
+Lemma match_byte_letter v c : is_letter c = true -> match_byte v c = true -> is_letter v = true.
+Proof.
+  unfold match_byte, is_letter, lower. intros Hc H.
+  destruct ((65 <=? v) && (v <=? 90))%N eqn:E1; destruct ((65 <=? c) && (c <=? 90))%N eqn:E2; lia.
+Qed.
+
+Lemma table_letters : Forall (fun name => forallb is_letter name = true) long_months
+                      /\ Forall (fun name => forallb is_letter name = true) short_months.
+Proof. split; repeat constructor. Qed.
+
+Lemma lookup_name_letters tab i s v r :
+  Forall (fun name => forallb is_letter name = true /\ name <> []) tab ->
+  lookup_name tab i s = Some (v, r) ->
+  exists p, s = p ++ r /\ forallb is_letter p = true /\ p <> [].
+Proof.
+  intros Ht H. apply lookup_name_split in H. destruct H as [Hr [p [-> Hf]]]. exists p. split; [reflexivity|].
+  match type of Hf with Forall2 _ _ ?n => assert (Hin : In n tab) by (apply nth_In; unfold bytes in *; lia);
+                                           set (name := n) in * end.
+  rewrite Forall_forall in Ht. destruct (Ht _ Hin) as [Hl Hne]. clear Ht Hin. clearbody name. split.
+  - clear Hne. revert Hl. induction Hf as [|x c p' name' Hxc _ IH]; intros Hl; [reflexivity|]. cbn [forallb] in *.
+    apply andb_true_iff in Hl. destruct Hl as [Hc Hl]. rewrite (match_byte_letter _ _ Hc Hxc), (IH Hl). reflexivity.
+  - destruct Hf; [congruence|discriminate].
+Qed.
+
+Lemma tables_nonempty_letters :
+  Forall (fun name => forallb is_letter name = true /\ name <> []) long_months
+  /\ Forall (fun name => forallb is_letter name = true /\ name <> []) short_months.
+Proof. split; repeat constructor; discriminate. Qed.
+
 (** *** a space of the layout: [time.skip] *)
 
 Lemma drop_spaces_cons c s : drop_spaces (c :: s) = if (c =? 32)%N then drop_spaces s else c :: s.
@@ -98,6 +241,9 @@ Proof. destruct c as [|p]; [reflexivity|]. do 6 (try (destruct p as [p|p|]; try 
 
 Lemma drop_space_lits_lit c r :
   drop_space_lits (Lit c :: r) = if (c =? 32)%N then drop_space_lits r else Lit c :: r.
+Proof. destruct c as [|p]; [reflexivity|]. do 6 (try (destruct p as [p|p|]; try reflexivity)). Qed.
+
+Lemma drop_one_space_cons c s : drop_one_space (c :: s) = if (c =? 32)%N then s else c :: s.
 Proof. destruct c as [|p]; [reflexivity|]. do 6 (try (destruct p as [p|p|]; try reflexivity)). Qed.
 
 (** a [Lit 32] of the layout matches a run of spaces of the value together with the
@@ -125,7 +271,7 @@ Proof. intros Hc. cbn [parse_tokens]. destruct (N.eqb_spec c 32); [contradiction
 
 Lemma drop_space_lits_cases r : drop_space_lits r = r \/ exists r', r = Lit 32 :: r'.
 Proof.
-  destruct r as [|[| | |c] r']; try (left; reflexivity).
+  destruct r as [|t r']; [left; reflexivity|]. destruct t as [| | | | | | | |c]; try (left; reflexivity).
   destruct (N.eqb_spec c 32) as [->|Hc]; [right; eexists; reflexivity|left].
   rewrite drop_space_lits_lit. destruct (N.eqb_spec c 32); [contradiction|reflexivity].
 Qed.
@@ -154,113 +300,225 @@ Proof.
     rewrite parse_tokens_space_eq. exact H.
 Qed.
 
-Lemma drop_spaces_digits ds rest : forallb is_digit ds = true -> ds <> [] -> drop_spaces (ds ++ rest) = ds ++ rest.
+(** a text that begins with a byte other than the blank *)
+Definition noblank_start (s : bytes) : bool := match s with c :: _ => negb (c =? 32)%N | [] => false end.
+
+Lemma drop_spaces_noblank s : noblank_start s = true -> drop_spaces s = s.
+Proof.
+  destruct s as [|c s]; [discriminate|]. cbn [noblank_start]. rewrite drop_spaces_cons.
+  destruct (c =? 32)%N; [discriminate|reflexivity].
+Qed.
+
+Lemma drop_one_space_noblank s : noblank_start s = true -> drop_one_space s = s.
+Proof.
+  destruct s as [|c s]; [discriminate|]. cbn [noblank_start]. rewrite drop_one_space_cons.
+  destruct (c =? 32)%N; [discriminate|reflexivity].
+Qed.
+
+Lemma noblank_start_app s t : noblank_start s = true -> noblank_start (s ++ t) = true.
+Proof. destruct s; [discriminate|]. intros H. exact H. Qed.
+
+Lemma digits_noblank ds : forallb is_digit ds = true -> ds <> [] -> noblank_start ds = true.
 Proof.
   destruct ds as [|c ds]; [congruence|]. intros H _. cbn [forallb] in H. apply andb_true_iff in H.
-  destruct H as [Hc _]. cbn [app]. rewrite drop_spaces_cons. unfold is_digit in Hc.
-  destruct (N.eqb_spec c 32); [lia|reflexivity].
+  destruct H as [Hc _]. cbn [noblank_start]. unfold is_digit in Hc. lia.
 Qed.
+
+Lemma letters_noblank ds : forallb is_letter ds = true -> ds <> [] -> noblank_start ds = true.
+Proof.
+  destruct ds as [|c ds]; [congruence|]. intros H _. cbn [forallb] in H. apply andb_true_iff in H.
+  destruct H as [Hc _]. cbn [noblank_start]. unfold is_letter in Hc. lia.
+Qed.
+
+Lemma letters_nodigit ds : forallb is_letter ds = true -> nodigit_start ds = true.
+Proof.
+  destruct ds as [|c ds]; [reflexivity|]. intros H. cbn [forallb] in H. apply andb_true_iff in H.
+  destruct H as [Hc _]. cbn [nodigit_start]. unfold is_letter in Hc. unfold is_digit. lia.
+Qed.
+
+Lemma nodigit_start_app s t : s <> [] -> nodigit_start s = true -> nodigit_start (s ++ t) = true.
+Proof. destruct s; [congruence|]. intros _ H. exact H. Qed.
+
+Lemma drop_spaces_digits ds rest : forallb is_digit ds = true -> ds <> [] -> drop_spaces (ds ++ rest) = ds ++ rest.
+Proof. intros H Hne. apply drop_spaces_noblank, noblank_start_app, digits_noblank; assumption. Qed.
 
 (** *** [parse_date] after [format_date] *)
 
-Definition has_tok (t : ltoken) (l : list ltoken) : bool :=
-  existsb (fun x => match x, t with Y4, Y4 | M2, M2 | D2, D2 => true | _, _ => false end) l.
+Lemma format_date_cons t toks cv : format_date (t :: toks) cv = format_tok cv t ++ format_date toks cv.
+Proof. reflexivity. Qed.
 
-Lemma has_tok_In t l : (t = Y4 \/ t = M2 \/ t = D2) -> (has_tok t l = true <-> In t l).
+(** a token that does not begin with a digit writes a text that does not begin with a digit *)
+Lemma nondigit_tok_start y m d t toks : 1 <= m <= 12 -> nondigit_tok t = true ->
+  nodigit_start (format_date (t :: toks) (y, m, d)) = true.
 Proof.
-  intros Ht. unfold has_tok. rewrite existsb_exists. split.
-  - intros [x [Hx E]]. destruct x, t; try discriminate; exact Hx.
-  - intros H. exists t. split; [exact H|]. destruct Ht as [->|[->| ->]]; reflexivity.
+  intros Hm Ht. rewrite format_date_cons. destruct t as [| | | | | | | |c]; try discriminate; cbn [format_tok].
+  - destruct (short_name_letters m Hm) as [Hl Hn]. apply nodigit_start_app; [|apply letters_nodigit, Hl].
+    intros E. rewrite E in Hn. discriminate.
+  - destruct (month_name_letters m Hm) as [Hl Hn]. apply nodigit_start_app; [|apply letters_nodigit, Hl].
+    intros E. rewrite E in Hn. cbn in Hn. lia.
+  - exact Ht.
+Qed.
+
+(** what follows an element of variable width in a layout with [sep_ok] *)
+Lemma sep_ok_next y m d t toks : 1 <= m <= 12 -> sep_ok (t :: toks) = true -> var_width t = true ->
+  nodigit_start (format_date toks (y, m, d)) = true.
+Proof.
+  intros Hm Hs Hv. cbn [sep_ok] in Hs. rewrite Hv in Hs. cbn [negb orb] in Hs. apply andb_true_iff in Hs.
+  destruct Hs as [Hs _]. destruct toks as [|u toks']; [reflexivity|]. apply nondigit_tok_start; assumption.
+Qed.
+
+Lemma sep_ok_tail t toks : sep_ok (t :: toks) = true -> sep_ok toks = true.
+Proof. cbn [sep_ok]. intros H. apply andb_true_iff in H. apply H. Qed.
+
+(** the text of a token other than the blank literal and [_2] begins with a byte that is not a blank *)
+Lemma format_tok_noblank y m d t : 0 <= y <= 9999 -> 1 <= m <= 12 -> 1 <= d <= 31 ->
+  t <> Lit 32 -> t <> DU -> noblank_start (format_tok (y, m, d) t) = true.
+Proof.
+  intros Hy Hm Hd H32 HDU.
+  assert (Hlen : forall (ds : bytes) n, length ds = S n -> ds <> []) by (intros ds n H E; subst ds; discriminate).
+  destruct t as [| | | | | | | |c]; cbn [format_tok].
+  - destruct (fmt4_spec y Hy) as [_ [H2 H3]]. apply digits_noblank; [exact H2|eapply Hlen, H3].
+  - destruct (fmt2_spec m ltac:(lia)) as [_ [H2 H3]]. apply digits_noblank; [exact H2|eapply Hlen, H3].
+  - destruct (fmt2_spec d ltac:(lia)) as [_ [H2 H3]]. apply digits_noblank; [exact H2|eapply Hlen, H3].
+  - destruct (fmt_num0_spec d ltac:(lia)) as [H2 H3]. apply digits_noblank; assumption.
+  - congruence.
+  - destruct (fmt_num0_spec m ltac:(lia)) as [H2 H3]. apply digits_noblank; assumption.
+  - destruct (short_name_letters m Hm) as [Hl Hn]. apply letters_noblank; [exact Hl|].
+    intros E. rewrite E in Hn. discriminate.
+  - destruct (month_name_letters m Hm) as [Hl Hn]. apply letters_noblank; [exact Hl|].
+    intros E. rewrite E in Hn. cbn in Hn. lia.
+  - cbn [noblank_start]. destruct (N.eqb_spec c 32) as [->|]; [congruence|reflexivity].
+Qed.
+
+(** [_2] reads the blank it wrote, and reads its number without it as well *)
+Lemma parse_tokens_DU_blank r s y m d : noblank_start s = true ->
+  parse_tokens (DU :: r) (32%N :: s) y m d = parse_tokens (DU :: r) s y m d.
+Proof.
+  intros H. cbn [parse_tokens]. rewrite drop_one_space_cons. cbn [N.eqb Pos.eqb].
+  rewrite (drop_one_space_noblank _ H). reflexivity.
 Qed.
 
 Lemma parse_format_tokens y m d : 0 <= y <= 9999 -> 1 <= m <= 12 -> 1 <= d <= days_in y m ->
-  forall toks y0 m0 d0,
+  forall toks, sep_ok toks = true -> forall y0 m0 d0,
     parse_tokens toks (format_date toks (y, m, d)) y0 m0 d0
-    = Some (if has_tok Y4 toks then y else y0, if has_tok M2 toks then m else m0,
-            if has_tok D2 toks then d else d0).
+    = Some (if has_year toks then y else y0, if has_month toks then m else m0,
+            if has_day toks then d else d0).
 Proof.
   intros Hy Hm Hd. pose proof (days_in_bounds y m) as Hdi.
-  induction toks as [|t toks IH]; intros y0 m0 d0; [reflexivity|].
-  unfold format_date in *. cbn [map concat]. destruct t as [| | |c].
+  assert (Hlen : forall (ds : bytes) n, length ds = S n -> ds <> []) by (intros ds n H E; subst ds; discriminate).
+  induction toks as [|t toks IH]; intros Hsep y0 m0 d0; [reflexivity|].
+  pose proof (sep_ok_tail _ _ Hsep) as Hsep'. specialize (IH Hsep').
+  rewrite format_date_cons. unfold has_year, has_month, has_day. cbn [existsb].
+  fold (has_year toks) (has_month toks) (has_day toks).
+  destruct t as [| | | | | | | |c]; cbn [format_tok is_year is_month is_day orb].
   - destruct (fmt4_spec y Hy) as [H1 _]. cbn [parse_tokens].
-    rewrite (take_digits_app _ _ _ _ _ _ H1). cbn [app]. rewrite IH. cbn.
-    destruct (has_tok Y4 toks); reflexivity.
+    rewrite (take_digits_app _ _ _ _ _ _ H1). cbn [app]. rewrite IH.
+    destruct (has_year toks); reflexivity.
   - destruct (fmt2_spec m ltac:(lia)) as [H1 _]. cbn [parse_tokens].
     rewrite (take_digits_app _ _ _ _ _ _ H1). cbn [app].
-    replace ((1 <=? m) && (m <=? 12))%bool with true by lia. rewrite IH. cbn.
-    destruct (has_tok M2 toks); reflexivity.
+    replace ((1 <=? m) && (m <=? 12))%bool with true by lia. rewrite IH.
+    destruct (has_month toks); reflexivity.
   - destruct (fmt2_spec d ltac:(lia)) as [H1 _]. cbn [parse_tokens].
-    rewrite (take_digits_app _ _ _ _ _ _ H1). cbn [app].
-    replace ((0 <=? d) && (d <=? 31))%bool with true by lia. rewrite IH. cbn.
-    destruct (has_tok D2 toks); reflexivity.
+    rewrite (take_digits_app _ _ _ _ _ _ H1). cbn [app]. rewrite IH.
+    destruct (has_day toks); reflexivity.
+  - cbn [parse_tokens]. rewrite get_num_fmt; [|lia|apply (sep_ok_next y m d D1 toks Hm Hsep eq_refl)].
+    rewrite IH. destruct (has_day toks); reflexivity.
+  - pose proof (sep_ok_next y m d DU toks Hm Hsep eq_refl) as Hn.
+    destruct (fmt_num0_spec d ltac:(lia)) as [Hdg Hne].
+    assert (E : parse_tokens (DU :: toks) (fmt_num 0 d ++ format_date toks (y, m, d)) y0 m0 d0
+                = Some (if has_year toks then y else y0, if has_month toks then m else m0, d)).
+    { cbn [parse_tokens]. rewrite drop_one_space_noblank by (apply noblank_start_app, digits_noblank; assumption).
+      rewrite get_num_fmt; [|lia|exact Hn]. rewrite IH. destruct (has_day toks); reflexivity. }
+    destruct (d <? 10); cbn [app]; [|exact E].
+    rewrite parse_tokens_DU_blank by (apply noblank_start_app, digits_noblank; assumption). exact E.
+  - cbn [parse_tokens]. rewrite get_num_fmt; [|lia|apply (sep_ok_next y m d M1 toks Hm Hsep eq_refl)].
+    replace ((1 <=? m) && (m <=? 12))%bool with true by lia. rewrite IH.
+    destruct (has_month toks); reflexivity.
+  - cbn [parse_tokens]. rewrite (lookup_short_name m _ Hm). rewrite IH. destruct (has_month toks); reflexivity.
+  - cbn [parse_tokens]. rewrite (lookup_long_name m _ Hm). rewrite IH. destruct (has_month toks); reflexivity.
   - destruct (N.eqb_spec c 32) as [->|Hc].
-    + (* the text after the run of space literals does not start with a space *)
+    + (* the run of space literals: the text after it begins with no blank, or with the blank of [_2] *)
       cbn [app]. rewrite parse_tokens_space_run. rewrite <- IH.
-      destruct toks as [|t toks']; [reflexivity|]. cbn [map concat].
-      assert (Hlen : forall (ds : bytes) n, length ds = S n -> ds <> []) by (intros ds n H E; subst ds; discriminate).
-      destruct t as [| | |c'].
-      * destruct (fmt4_spec y Hy) as [_ [H2 H3]]. rewrite drop_spaces_digits; [reflexivity|exact H2|eapply Hlen, H3].
-      * destruct (fmt2_spec m ltac:(lia)) as [_ [H2 H3]]. rewrite drop_spaces_digits; [reflexivity|exact H2|eapply Hlen, H3].
-      * destruct (fmt2_spec d ltac:(lia)) as [_ [H2 H3]]. rewrite drop_spaces_digits; [reflexivity|exact H2|eapply Hlen, H3].
-      * cbn [app]. rewrite drop_space_lits_lit, drop_spaces_cons.
-        destruct (N.eqb_spec c' 32) as [->|Hc']; reflexivity.
+      destruct toks as [|t toks']; [reflexivity|]. rewrite format_date_cons.
+      destruct (N.eq_dec 0 0) as [_|]; [|congruence].
+      assert (Hcase : t = Lit 32 \/ t = DU \/ (t <> Lit 32 /\ t <> DU)).
+      { destruct t as [| | | | | | | |c']; try (right; right; split; discriminate); [right; left; reflexivity|].
+        destruct (N.eqb_spec c' 32) as [->|]; [left; reflexivity|right; right; split; congruence]. }
+      destruct Hcase as [->|[->|[H32 HDU]]].
+      * reflexivity.
+      * cbn [format_tok drop_space_lits]. destruct (fmt_num0_spec d ltac:(lia)) as [Hdg Hne].
+        assert (Hnb : noblank_start (fmt_num 0 d ++ format_date toks' (y, m, d)) = true)
+          by (apply noblank_start_app, digits_noblank; assumption).
+        destruct (d <? 10); cbn [app].
+        -- rewrite drop_spaces_cons. cbn [N.eqb Pos.eqb]. rewrite (drop_spaces_noblank _ Hnb).
+           symmetry. apply parse_tokens_DU_blank, Hnb.
+        -- rewrite (drop_spaces_noblank _ Hnb). reflexivity.
+      * assert (Hd' : drop_space_lits (t :: toks') = t :: toks').
+        { destruct t as [| | | | | | | |c']; try reflexivity. rewrite drop_space_lits_lit.
+          destruct (N.eqb_spec c' 32) as [->|]; [congruence|reflexivity]. }
+        rewrite Hd'. rewrite drop_spaces_noblank; [reflexivity|].
+        apply noblank_start_app, format_tok_noblank; (assumption || lia).
     + rewrite parse_tokens_lit by exact Hc. cbn [app]. rewrite N.eqb_refl. rewrite IH. reflexivity.
 Qed.
 
-(** the general form: any layout, a date the layout can express *)
+(** the general form: any layout whose variable-width elements are separated, a date the layout can express *)
 Lemma format_parse_date_fits toks cv :
-  civil_fits toks cv -> parse_date toks (format_date toks cv) = Some cv.
+  sep_ok toks = true -> civil_fits toks cv -> parse_date toks (format_date toks cv) = Some cv.
 Proof.
-  destruct cv as [[y m] d]. intros [[Hy [Hm Hd]] [Fy [Fm Fd]]].
-  unfold parse_date. rewrite (parse_format_tokens y m d Hy Hm Hd).
-  assert (Ey : (if has_tok Y4 toks then y else 0) = y).
-  { destruct (has_tok Y4 toks) eqn:E; [reflexivity|]. symmetry. apply Fy. intros HI.
-    apply has_tok_In in HI; [congruence|tauto]. }
-  assert (Em : (if has_tok M2 toks then m else 1) = m).
-  { destruct (has_tok M2 toks) eqn:E; [reflexivity|]. symmetry. apply Fm. intros HI.
-    apply has_tok_In in HI; [congruence|tauto]. }
-  assert (Ed : (if has_tok D2 toks then d else 1) = d).
-  { destruct (has_tok D2 toks) eqn:E; [reflexivity|]. symmetry. apply Fd. intros HI.
-    apply has_tok_In in HI; [congruence|tauto]. }
+  destruct cv as [[y m] d]. intros Hsep [[Hy [Hm Hd]] [Fy [Fm Fd]]].
+  unfold parse_date. rewrite (parse_format_tokens y m d Hy Hm Hd toks Hsep).
+  assert (Ey : (if has_year toks then y else 0) = y) by (destruct (has_year toks); [reflexivity|symmetry; apply Fy; reflexivity]).
+  assert (Em : (if has_month toks then m else 1) = m) by (destruct (has_month toks); [reflexivity|symmetry; apply Fm; reflexivity]).
+  assert (Ed : (if has_day toks then d else 1) = d) by (destruct (has_day toks); [reflexivity|symmetry; apply Fd; reflexivity]).
   rewrite Ey, Em, Ed. replace ((1 <=? d) && (d <=? days_in y m))%bool with true by lia. reflexivity.
 Qed.
 
 (** the form of the brief: a layout with all three fields, any valid date *)
 Lemma format_parse_date toks y m d :
-  full_layout toks -> valid_civil (y, m, d) ->
+  sep_ok toks = true -> full_layout toks -> valid_civil (y, m, d) ->
   parse_date toks (format_date toks (y, m, d)) = Some (y, m, d).
 Proof.
-  intros [Hy [Hm Hd]] Hv. apply format_parse_date_fits. split; [exact Hv|]. repeat split; intros H; contradiction.
+  intros Hsep [Hy [Hm Hd]] Hv. apply format_parse_date_fits; [exact Hsep|]. split; [exact Hv|].
+  repeat split; intros H; congruence.
 Qed.
 
 (** *** what [parse_date] returns fits the layout *)
 Lemma parse_tokens_fits toks : forall s y0 m0 d0 y m d,
   parse_tokens toks s y0 m0 d0 = Some (y, m, d) ->
-  (if has_tok Y4 toks then 0 <= y <= 9999 else y = y0)
-  /\ (if has_tok M2 toks then 1 <= m <= 12 else m = m0)
-  /\ (if has_tok D2 toks then True else d = d0).
+  (if has_year toks then 0 <= y <= 9999 else y = y0)
+  /\ (if has_month toks then 1 <= m <= 12 else m = m0)
+  /\ (if has_day toks then True else d = d0).
 Proof.
   induction toks as [|t toks IH]; intros s y0 m0 d0 y m d H.
   - cbn in H. destruct s; [|discriminate]. injection H as <- <- <-. cbn. auto.
-  - destruct t as [| | |c]; cbn [parse_tokens] in H.
+  - unfold has_year, has_month, has_day. cbn [existsb]. fold (has_year toks) (has_month toks) (has_day toks).
+    destruct t as [| | | | | | | |c]; cbn [parse_tokens is_year is_month is_day orb] in H |- *.
     + destruct (take_digits 4 s 0) as [[v s']|] eqn:E; [|discriminate].
       apply take_digits_bound in E; [|lia]. apply IH in H. destruct H as [H1 [H2 H3]].
-      change (has_tok Y4 (Y4 :: toks)) with true. change (has_tok M2 (Y4 :: toks)) with (has_tok M2 toks).
-      change (has_tok D2 (Y4 :: toks)) with (has_tok D2 toks).
-      split; [|split; assumption]. destruct (has_tok Y4 toks); [exact H1|]. subst y.
+      split; [|split; assumption]. destruct (has_year toks); [exact H1|]. subst y.
       change (10 ^ Z.of_nat 4) with 10000 in E. lia.
     + destruct (take_digits 2 s 0) as [[v s']|] eqn:E; [|discriminate].
       destruct ((1 <=? v) && (v <=? 12))%bool eqn:Er; [|discriminate].
       apply IH in H. destruct H as [H1 [H2 H3]].
-      change (has_tok M2 (M2 :: toks)) with true. change (has_tok Y4 (M2 :: toks)) with (has_tok Y4 toks).
-      change (has_tok D2 (M2 :: toks)) with (has_tok D2 toks).
-      split; [exact H1|]. split; [|exact H3]. destruct (has_tok M2 toks); [exact H2|]. subst m. lia.
+      split; [exact H1|]. split; [|exact H3]. destruct (has_month toks); [exact H2|]. subst m. lia.
     + destruct (take_digits 2 s 0) as [[v s']|] eqn:E; [|discriminate].
-      destruct ((0 <=? v) && (v <=? 31))%bool eqn:Er; [|discriminate].
+      apply IH in H. destruct H as [H1 [H2 H3]]. split; [exact H1|]. split; [exact H2|exact I].
+    + destruct (get_num s) as [[v s']|] eqn:E; [|discriminate].
+      apply IH in H. destruct H as [H1 [H2 H3]]. split; [exact H1|]. split; [exact H2|exact I].
+    + destruct (get_num (drop_one_space s)) as [[v s']|] eqn:E; [|discriminate].
+      apply IH in H. destruct H as [H1 [H2 H3]]. split; [exact H1|]. split; [exact H2|exact I].
+    + destruct (get_num s) as [[v s']|] eqn:E; [|discriminate].
+      destruct ((1 <=? v) && (v <=? 12))%bool eqn:Er; [|discriminate].
       apply IH in H. destruct H as [H1 [H2 H3]].
-      change (has_tok D2 (D2 :: toks)) with true. change (has_tok Y4 (D2 :: toks)) with (has_tok Y4 toks).
-      change (has_tok M2 (D2 :: toks)) with (has_tok M2 toks).
-      split; [exact H1|]. split; [exact H2|exact I].
+      split; [exact H1|]. split; [|exact H3]. destruct (has_month toks); [exact H2|]. subst m. lia.
+    + destruct (lookup_name short_months 1 s) as [[v s']|] eqn:E; [|discriminate].
+      apply lookup_name_split in E. destruct E as [Er _]. cbn [length short_months] in Er.
+      apply IH in H. destruct H as [H1 [H2 H3]].
+      split; [exact H1|]. split; [|exact H3]. destruct (has_month toks); [exact H2|]. subst m. lia.
+    + destruct (lookup_name long_months 1 s) as [[v s']|] eqn:E; [|discriminate].
+      apply lookup_name_split in E. destruct E as [Er _]. cbn [length long_months] in Er.
+      apply IH in H. destruct H as [H1 [H2 H3]].
+      split; [exact H1|]. split; [|exact H3]. destruct (has_month toks); [exact H2|]. subst m. lia.
     + revert H. destruct (N.eqb_spec c 32) as [->|Hc]; intros H.
       * apply parse_tokens_space_step in H. destruct H as [pre [s' [_ [_ H]]]].
         apply IH in H. exact H.
@@ -273,15 +531,8 @@ Proof.
   unfold parse_date. destruct (parse_tokens toks s 0 1 1) as [[[y m] d]|] eqn:E; [|discriminate].
   destruct ((1 <=? d) && (d <=? days_in y m))%bool eqn:Ed; [|discriminate].
   intros H. injection H as <-. apply parse_tokens_fits in E. destruct E as [H1 [H2 H3]].
-  assert (NY : ~ In Y4 toks -> has_tok Y4 toks = false).
-  { intros N. destruct (has_tok Y4 toks) eqn:X; [|reflexivity]. apply has_tok_In in X; [contradiction|tauto]. }
-  assert (NM : ~ In M2 toks -> has_tok M2 toks = false).
-  { intros N. destruct (has_tok M2 toks) eqn:X; [|reflexivity]. apply has_tok_In in X; [contradiction|tauto]. }
-  assert (ND : ~ In D2 toks -> has_tok D2 toks = false).
-  { intros N. destruct (has_tok D2 toks) eqn:X; [|reflexivity]. apply has_tok_In in X; [contradiction|tauto]. }
   unfold civil_fits, valid_civil.
-  destruct (has_tok Y4 toks), (has_tok M2 toks), (has_tok D2 toks); repeat split; try lia;
-    intros N; (try (specialize (NY N))); (try (specialize (NM N))); (try (specialize (ND N))); congruence.
+  destruct (has_year toks), (has_month toks), (has_day toks); repeat split; try lia; intros N; congruence.
 Qed.
 
 (** *** spaces: the behaviour of [time.skip], stated *)
@@ -314,29 +565,24 @@ Qed.
 
 (** *** the bytes of a formatted date *)
 
+(** what [next_elem] answers is an element or a safe literal, and it is at least one byte long *)
+Lemma next_elem_safe l t n : next_elem l = Some (t, n) -> safe_tok t = true /\ (0 < n)%nat.
+Proof.
+  unfold next_elem. destruct l as [|c r]; [discriminate|].
+  repeat match goal with
+         | |- (if ?x then _ else _) = _ -> _ => destruct x eqn:?
+         end; intros H; try discriminate; injection H as <- <-; split; (reflexivity || lia || assumption).
+Qed.
+
 (** layouts that [tokenize] accepts have safe literals only *)
 Lemma tokenize_fuel_safe f : forall l toks, tokenize_fuel f l = Some toks -> forallb safe_tok toks = true.
 Proof.
   induction f as [|f IH]; intros l toks H.
   - cbn in H. destruct l; [|discriminate]. injection H as <-. reflexivity.
-  - cbn [tokenize_fuel] in H.
-    assert (Hlit : forall c r, (if safe_literal c then option_map (cons (Lit c)) (tokenize_fuel f r) else None) = Some toks ->
-                               forallb safe_tok toks = true).
-    { intros c r H0. destruct (safe_literal c) eqn:Es; [|discriminate].
-      destruct (tokenize_fuel f r) as [t|] eqn:E; [|discriminate]. injection H0 as <-.
-      cbn. rewrite Es. apply (IH r), E. }
-    assert (Htok : forall t r, (t = Y4 \/ t = M2 \/ t = D2) -> option_map (cons t) (tokenize_fuel f r) = Some toks ->
-                               forallb safe_tok toks = true).
-    { intros t r Ht H0. destruct (tokenize_fuel f r) as [t'|] eqn:E; [|discriminate]. injection H0 as <-.
-      cbn. replace (safe_tok t) with true by (destruct Ht as [->|[->| ->]]; reflexivity). apply (IH r), E. }
-    destruct l as [|c0 r0]; [injection H as <-; reflexivity|].
-    repeat first [ match type of H with
-                     (if safe_literal ?c then option_map _ (tokenize_fuel _ ?r) else None) = _ => exact (Hlit c r H)
-                   end
-                 | match type of H with
-                     option_map (cons ?t) (tokenize_fuel _ ?r) = _ => apply (Htok t r); [tauto|exact H]
-                   end
-                 | match type of H with match ?x with _ => _ end = _ => destruct x end ].
+  - cbn [tokenize_fuel] in H. destruct l as [|c0 r0]; [injection H as <-; reflexivity|].
+    destruct (next_elem (c0 :: r0)) as [[t n]|] eqn:En; [|discriminate].
+    destruct (tokenize_fuel f (skipn n (c0 :: r0))) as [tl|] eqn:E; [|discriminate]. injection H as <-.
+    cbn [forallb]. rewrite (proj1 (next_elem_safe _ _ _ En)). apply (IH _ _ E).
 Qed.
 
 Lemma tokenize_safe layout toks : tokenize layout = Some toks -> forallb safe_tok toks = true.
@@ -349,49 +595,96 @@ Qed.
 Open Scope N_scope.
 
 (** bytes a formatted date is made of *)
-Definition date_byte (c : N) : bool := is_digit c || safe_literal c.
+Definition date_byte (c : N) : bool := is_digit c || safe_literal c || is_letter c.
 
-Definition tok_bytes (cv : Z * Z * Z) (t : ltoken) : bytes :=
-  let '(y, m, d) := cv in
-  match t with Y4 => fmt_num 4 y | M2 => fmt_num 2 m | D2 => fmt_num 2 d | Lit c => [c] end.
+Notation tok_bytes := format_tok (only parsing).
 
-Lemma format_date_concat toks cv : format_date toks cv = concat (map (tok_bytes cv) toks).
-Proof. destruct cv as [[y m] d]. reflexivity. Qed.
+Lemma format_date_concat toks cv : format_date toks cv = concat (map (format_tok cv) toks).
+Proof. reflexivity. Qed.
 
+Lemma digit_edges ds : forallb is_digit ds = true -> ds <> [] ->
+  first_outside (c_hash :: c_tab :: trim_text) ds = true /\ last_outside (c_cr :: trim_text) ds = true.
+Proof.
+  intros Hds Hne. split.
+  - destruct ds as [|c ds]; [congruence|]. cbn [forallb] in Hds. apply andb_true_iff in Hds.
+    destruct Hds as [Hc _]. cbn [first_outside]. unfold is_digit in Hc. apply negb_true_iff.
+    apply memb_false_In. cbv [trim_text c_hash c_tab c_space c_lf c_colon c_quote c_dash In].
+    intros H. repeat (destruct H as [H|H]; [lia|]). exact H.
+  - destruct (snoc_cases ds) as [->|[s' [c ->]]]; [congruence|]. rewrite last_outside_snoc.
+    rewrite forallb_app in Hds. apply andb_true_iff in Hds. destruct Hds as [_ Hc]. cbn in Hc.
+    rewrite andb_true_r in Hc. unfold is_digit in Hc. apply negb_true_iff.
+    apply memb_false_In. cbv [trim_text c_cr c_tab c_space c_lf c_colon c_quote c_dash In].
+    intros H. repeat (destruct H as [H|H]; [lia|]). exact H.
+Qed.
+
+Lemma letter_edges ds : forallb is_letter ds = true -> ds <> [] ->
+  first_outside (c_hash :: c_tab :: trim_text) ds = true /\ last_outside (c_cr :: trim_text) ds = true.
+Proof.
+  intros Hds Hne. split.
+  - destruct ds as [|c ds]; [congruence|]. cbn [forallb] in Hds. apply andb_true_iff in Hds.
+    destruct Hds as [Hc _]. cbn [first_outside]. unfold is_letter in Hc. apply negb_true_iff.
+    apply memb_false_In. cbv [trim_text c_hash c_tab c_space c_lf c_colon c_quote c_dash In].
+    intros H. repeat (destruct H as [H|H]; [lia|]). exact H.
+  - destruct (snoc_cases ds) as [->|[s' [c ->]]]; [congruence|]. rewrite last_outside_snoc.
+    rewrite forallb_app in Hds. apply andb_true_iff in Hds. destruct Hds as [_ Hc]. cbn in Hc.
+    rewrite andb_true_r in Hc. unfold is_letter in Hc. apply negb_true_iff.
+    apply memb_false_In. cbv [trim_text c_cr c_tab c_space c_lf c_colon c_quote c_dash In].
+    intros H. repeat (destruct H as [H|H]; [lia|]). exact H.
+Qed.
+
+Lemma date_byte_digits ds : forallb is_digit ds = true -> forallb date_byte ds = true.
+Proof.
+  intros H. rewrite forallb_forall in *. intros x Hx. unfold date_byte. rewrite (H x Hx). reflexivity.
+Qed.
+
+Lemma date_byte_letters ds : forallb is_letter ds = true -> forallb date_byte ds = true.
+Proof.
+  intros H. rewrite forallb_forall in *. intros x Hx. unfold date_byte. rewrite (H x Hx). apply orb_true_r.
+Qed.
+
+(** the bytes of one token: date bytes, at least one; a token that may stand at an end of a heading
+    ends outside the parser's trim set and, unless it is [_2], begins outside it *)
 Lemma tok_bytes_spec toks cv t :
   civil_fits toks cv -> safe_tok t = true ->
-  forallb date_byte (tok_bytes cv t) = true /\ tok_bytes cv t <> []
+  forallb date_byte (format_tok cv t) = true /\ format_tok cv t <> []
   /\ (edge_tok t = true ->
-      first_outside (c_hash :: c_tab :: trim_text) (tok_bytes cv t) = true
-      /\ last_outside (c_cr :: trim_text) (tok_bytes cv t) = true).
+      (t <> DU -> first_outside (c_hash :: c_tab :: trim_text) (format_tok cv t) = true)
+      /\ last_outside (c_cr :: trim_text) (format_tok cv t) = true).
 Proof.
   destruct cv as [[y m] d]. intros [[Hy [Hm Hd]] _] Hs. pose proof (days_in_bounds y m) as Hdi.
   assert (Hdig : forall ds, forallb is_digit ds = true -> ds <> [] ->
             forallb date_byte ds = true /\ ds <> []
-            /\ (edge_tok t = true -> first_outside (c_hash :: c_tab :: trim_text) ds = true
+            /\ (edge_tok t = true -> (t <> DU -> first_outside (c_hash :: c_tab :: trim_text) ds = true)
                                      /\ last_outside (c_cr :: trim_text) ds = true)).
-  { intros ds Hds Hne. split; [|split; [exact Hne|]].
-    - rewrite forallb_forall in *. intros x Hx. unfold date_byte. rewrite (Hds x Hx). reflexivity.
-    - intros _. split.
-      + destruct ds as [|c ds]; [congruence|]. cbn [forallb] in Hds. apply andb_true_iff in Hds.
-        destruct Hds as [Hc _]. cbn [first_outside]. unfold is_digit in Hc. apply negb_true_iff.
-        apply memb_false_In. cbv [trim_text c_hash c_tab c_space c_lf c_colon c_quote c_dash In].
-        intros H. repeat (destruct H as [H|H]; [lia|]). exact H.
-      + destruct (snoc_cases ds) as [->|[s' [c ->]]]; [congruence|]. rewrite last_outside_snoc.
-        rewrite forallb_app in Hds. apply andb_true_iff in Hds. destruct Hds as [_ Hc]. cbn in Hc.
-        rewrite andb_true_r in Hc. unfold is_digit in Hc. apply negb_true_iff.
-        apply memb_false_In. cbv [trim_text c_cr c_tab c_space c_lf c_colon c_quote c_dash In].
-        intros H. repeat (destruct H as [H|H]; [lia|]). exact H. }
+  { intros ds Hds Hne. split; [apply date_byte_digits, Hds|]. split; [exact Hne|]. intros _.
+    destruct (digit_edges ds Hds Hne) as [A B]. split; [intros _; exact A|exact B]. }
+  assert (Hlet : forall ds, forallb is_letter ds = true -> ds <> [] ->
+            forallb date_byte ds = true /\ ds <> []
+            /\ (edge_tok t = true -> (t <> DU -> first_outside (c_hash :: c_tab :: trim_text) ds = true)
+                                     /\ last_outside (c_cr :: trim_text) ds = true)).
+  { intros ds Hds Hne. split; [apply date_byte_letters, Hds|]. split; [exact Hne|]. intros _.
+    destruct (letter_edges ds Hds Hne) as [A B]. split; [intros _; exact A|exact B]. }
   assert (Hlen : forall (ds : bytes) n, length ds = S n -> ds <> []) by (intros ds n H E; subst ds; discriminate).
-  destruct t as [| | |c]; cbn [tok_bytes].
+  destruct t as [| | | | | | | |c]; cbn [format_tok].
   - destruct (fmt4_spec y Hy) as [_ [H2 H3]]. apply Hdig; [exact H2|eapply Hlen, H3].
   - destruct (fmt2_spec m ltac:(lia)) as [_ [H2 H3]]. apply Hdig; [exact H2|eapply Hlen, H3].
   - destruct (fmt2_spec d ltac:(lia)) as [_ [H2 H3]]. apply Hdig; [exact H2|eapply Hlen, H3].
+  - destruct (fmt_num0_spec d ltac:(lia)) as [H2 H3]. apply Hdig; assumption.
+  - destruct (fmt_num0_spec d ltac:(lia)) as [H2 H3]. destruct (digit_edges _ H2 H3) as [A B].
+    split; [|split].
+    + rewrite forallb_app, (date_byte_digits _ H2). destruct (d <? 10)%Z; reflexivity.
+    + destruct (d <? 10)%Z; [discriminate|exact H3].
+    + intros _. split; [congruence|]. apply last_outside_app, B.
+  - destruct (fmt_num0_spec m ltac:(lia)) as [H2 H3]. apply Hdig; assumption.
+  - destruct (short_name_letters m Hm) as [Hl Hn]. apply Hlet; [exact Hl|].
+    intros E. rewrite E in Hn. discriminate.
+  - destruct (month_name_letters m Hm) as [Hl Hn]. apply Hlet; [exact Hl|].
+    intros E. rewrite E in Hn. cbn in Hn. lia.
   - cbn in Hs. split; [|split; [discriminate|]].
     + cbn. unfold date_byte. rewrite Hs. rewrite orb_true_r. reflexivity.
     + cbn [edge_tok]. intros He. unfold last_outside. cbn [rev app first_outside].
       unfold safe_literal in Hs. apply negb_true_iff in He. apply memb_false_In in He.
-      split; apply negb_true_iff; apply memb_false_In; intros H; apply He;
+      split; [intros _|]; apply negb_true_iff; apply memb_false_In; intros H; apply He;
         cbv [trim_text c_hash c_cr c_tab c_space c_lf c_colon c_quote c_dash In] in *; lia.
 Qed.
 
@@ -400,19 +693,35 @@ Definition heading_bytes_ok (fd : bytes) : Prop :=
   /\ first_outside (c_hash :: c_tab :: trim_text) fd = true
   /\ last_outside (c_cr :: trim_text) fd = true.
 
+(** the parts of [heading_layout] *)
+Lemma heading_layout_parts toks : heading_layout toks = true ->
+  forallb safe_tok toks = true
+  /\ match toks with t :: _ => edge_tok t | [] => false end = true
+  /\ match rev toks with t :: _ => edge_tok t | [] => false end = true
+  /\ sep_ok toks = true /\ under_front toks = false.
+Proof.
+  unfold heading_layout, stable_layout. intros H.
+  apply andb_true_iff in H. destruct H as [H H4]. apply andb_true_iff in H. destruct H as [H H3].
+  apply andb_true_iff in H. destruct H as [H1 H2]. apply andb_true_iff in H4. destruct H4 as [H4 H5].
+  apply negb_true_iff in H5. auto.
+Qed.
+
+Lemma heading_layout_sep toks : heading_layout toks = true -> sep_ok toks = true.
+Proof. intros H. apply heading_layout_parts in H. apply H. Qed.
+
 Lemma format_date_heading toks cv :
   heading_layout toks = true -> civil_fits toks cv -> heading_bytes_ok (format_date toks cv).
 Proof.
-  unfold heading_layout. intros H Hfit. apply andb_true_iff in H. destruct H as [H H3].
-  apply andb_true_iff in H. destruct H as [H1 H2]. rewrite format_date_concat.
-  assert (Hall : forall l, forallb safe_tok l = true -> forallb date_byte (concat (map (tok_bytes cv) l)) = true).
+  intros H Hfit. destruct (heading_layout_parts _ H) as [H1 [H2 [H3 [_ H5]]]]. rewrite format_date_concat.
+  assert (Hall : forall l, forallb safe_tok l = true -> forallb date_byte (concat (map (format_tok cv) l)) = true).
   { induction l as [|t l IH]; intros Hl; [reflexivity|]. cbn [forallb] in Hl. apply andb_true_iff in Hl.
     destruct Hl as [Ht Hl]. cbn [map concat]. rewrite forallb_app. rewrite (IH Hl).
     destruct (tok_bytes_spec toks cv t Hfit Ht) as [Hb _]. rewrite Hb. reflexivity. }
   split; [apply Hall, H1|]. split.
   - destruct toks as [|t toks]; [discriminate|]. cbn [forallb] in H1. apply andb_true_iff in H1.
     destruct H1 as [Ht _]. cbn [map concat]. apply first_outside_app.
-    destruct (tok_bytes_spec (t :: toks) cv t Hfit Ht) as [_ [_ He]]. apply He, H2.
+    destruct (tok_bytes_spec (t :: toks) cv t Hfit Ht) as [_ [_ He]]. apply (He H2).
+    intros ->. discriminate.
   - destruct (snoc_cases toks) as [->|[l [t E]]]; [discriminate|]. rewrite E in *.
     rewrite rev_app_distr in H3. cbn [rev app] in H3.
     rewrite forallb_app in H1. apply andb_true_iff in H1. destruct H1 as [_ Ht]. cbn in Ht.
@@ -422,14 +731,14 @@ Qed.
 
 Lemma date_byte_not c : date_byte c = true -> memb c [c_lf; c_cr; c_tab; c_hash; c_quote] = false.
 Proof.
-  unfold date_byte, is_digit, safe_literal. intros H. cbv [memb existsb c_lf c_cr c_tab c_hash c_quote].
+  unfold date_byte, is_digit, safe_literal, is_letter. intros H. cbv [memb existsb c_lf c_cr c_tab c_hash c_quote].
   lia.
 Qed.
 
 Lemma heading_no_lf fd : forallb date_byte fd = true -> memb c_lf fd = false.
 Proof.
   intros H. apply memb_false_In. intros HI. rewrite forallb_forall in H. apply H in HI.
-  unfold date_byte, is_digit, safe_literal, c_lf in HI. lia.
+  unfold date_byte, is_digit, safe_literal, is_letter, c_lf in HI. lia.
 Qed.
 
 (** *** the layout without the spaces at its end ([layout_core]) *)
@@ -437,7 +746,7 @@ Qed.
 Lemma drop_space_lits_split l : exists sp, l = sp ++ drop_space_lits l /\ Forall (fun t => t = Lit 32) sp.
 Proof.
   induction l as [|t l [sp [E F]]]; [exists []; split; [reflexivity|constructor]|].
-  destruct t as [| | |c]; try (exists []; split; [reflexivity|constructor]).
+  destruct t as [| | | | | | | |c]; try (exists []; split; [reflexivity|constructor]).
   rewrite drop_space_lits_lit. destruct (N.eqb_spec c 32) as [->|Hc].
   - exists (Lit 32 :: sp). split; [cbn [app]; f_equal; exact E|constructor; [reflexivity|exact F]].
   - exists []. split; [reflexivity|constructor].
@@ -445,7 +754,7 @@ Qed.
 
 Lemma drop_space_lits_head l c r : drop_space_lits l = Lit c :: r -> c <> 32.
 Proof.
-  induction l as [|t l IH]; [discriminate|]. destruct t as [| | |c']; [cbn; discriminate..|].
+  induction l as [|t l IH]; [discriminate|]. destruct t as [| | | | | | | |c']; [cbn; discriminate..|].
   rewrite drop_space_lits_lit. destruct (N.eqb_spec c' 32) as [->|Hc]; [exact IH|].
   intros H. injection H as -> _. exact Hc.
 Qed.
@@ -463,7 +772,7 @@ Lemma drop_space_lits_app l sp : Forall (fun t => t = Lit 32) sp ->
   drop_space_lits (l ++ sp) = match drop_space_lits l with [] => [] | _ => drop_space_lits l ++ sp end.
 Proof.
   intros F. induction l as [|t l IH]; [cbn [app]; rewrite (drop_space_lits_spaces _ F); reflexivity|].
-  destruct t as [| | |c]; try reflexivity. cbn [app]. rewrite !drop_space_lits_lit.
+  destruct t as [| | | | | | | |c]; try reflexivity. cbn [app]. rewrite !drop_space_lits_lit.
   destruct (N.eqb_spec c 32); [exact IH|reflexivity].
 Qed.
 
@@ -485,11 +794,11 @@ Qed.
 (** a heading layout is its own core *)
 Lemma layout_core_heading toks : heading_layout toks = true -> layout_core toks = toks.
 Proof.
-  unfold heading_layout, layout_core. intros H. apply andb_true_iff in H. destruct H as [_ H].
+  intros H. destruct (heading_layout_parts _ H) as [_ [_ [H3 _]]]. unfold layout_core.
   destruct (rev toks) as [|t r] eqn:E; [discriminate|].
   assert (Hd : drop_space_lits (t :: r) = t :: r).
-  { destruct t as [| | |c]; try reflexivity. rewrite drop_space_lits_lit.
-    destruct (N.eqb_spec c 32) as [->|]; [vm_compute in H; discriminate|reflexivity]. }
+  { destruct t as [| | | | | | | |c]; try reflexivity. rewrite drop_space_lits_lit.
+    destruct (N.eqb_spec c 32) as [->|]; [vm_compute in H3; discriminate|reflexivity]. }
   rewrite Hd, <- E. apply rev_involutive.
 Qed.
 
@@ -500,11 +809,48 @@ Proof.
   intros [H|H]; [exact H|]. rewrite Forall_forall in F. apply F in H. contradiction.
 Qed.
 
+(** the spaces at the end set no field *)
+Lemma existsb_core (p : ltoken -> bool) toks : p (Lit 32) = false -> existsb p (layout_core toks) = existsb p toks.
+Proof.
+  intros Hp. destruct (layout_core_split toks) as [sp [E F]]. set (core := layout_core toks) in *.
+  clearbody core. rewrite E. rewrite existsb_app.
+  assert (X : existsb p sp = false) by (clear E; induction F as [|t sp -> _ IH]; [reflexivity|cbn; rewrite Hp; exact IH]).
+  rewrite X. rewrite orb_false_r. reflexivity.
+Qed.
+
+Lemma has_core toks : has_year (layout_core toks) = has_year toks
+                      /\ has_month (layout_core toks) = has_month toks
+                      /\ has_day (layout_core toks) = has_day toks.
+Proof. unfold has_year, has_month, has_day. rewrite !existsb_core by reflexivity. auto. Qed.
+
 Lemma civil_fits_core toks cv : civil_fits toks cv -> civil_fits (layout_core toks) cv.
 Proof.
-  destruct cv as [[y m] d]. intros [Hv [Fy [Fm Fd]]]. split; [exact Hv|].
-  repeat split; intros H; [apply Fy|apply Fm|apply Fd]; intros HI; apply H; apply In_layout_core;
-    first [discriminate|exact HI].
+  destruct cv as [[y m] d]. unfold civil_fits. destruct (has_core toks) as [-> [-> ->]]. tauto.
+Qed.
+
+(** the spaces at the end do not matter for the separation of the variable-width elements *)
+Lemma sep_ok_app_inv l1 : forall l2, sep_ok (l1 ++ l2) = true -> sep_ok l1 = true.
+Proof.
+  induction l1 as [|t l1 IH]; intros l2 H; [reflexivity|]. cbn [app sep_ok] in H |- *.
+  apply andb_true_iff in H. destruct H as [H1 H2]. rewrite (IH _ H2), andb_true_r.
+  destruct (var_width t); [|reflexivity]. cbn [negb orb] in *. destruct l1 as [|u l1]; [reflexivity|exact H1].
+Qed.
+
+Lemma sep_ok_core toks : sep_ok toks = true -> sep_ok (layout_core toks) = true.
+Proof.
+  intros H. destruct (layout_core_split toks) as [sp [E _]]. rewrite E in H. apply (sep_ok_app_inv _ _ H).
+Qed.
+
+Lemma under_front_core toks : under_front toks = false -> under_front (layout_core toks) = false.
+Proof.
+  intros H. destruct (layout_core_split toks) as [sp [E F]]. destruct (layout_core toks) as [|t core]; [reflexivity|].
+  rewrite E in H. exact H.
+Qed.
+
+Lemma stable_layout_core toks : stable_layout toks = true -> stable_layout (layout_core toks) = true.
+Proof.
+  unfold stable_layout. intros H. apply andb_true_iff in H. destruct H as [H1 H2]. apply negb_true_iff in H2.
+  rewrite (sep_ok_core _ H1), (under_front_core _ H2). reflexivity.
 Qed.
 
 (** space literals at the end of the layout do not spoil a successful parse *)
@@ -527,12 +873,17 @@ Proof.
     - destruct l; [|cbn in Hn; lia]. apply Hnil, H.
     - destruct l as [|t l]; [apply Hnil, H|]. cbn [length] in Hn.
       assert (Hl : (length l <= n)%nat) by lia. cbn [app].
-      destruct t as [| | |c].
+      destruct t as [| | | | | | | |c].
       + cbn [parse_tokens] in *. destruct (take_digits 4 s 0) as [[v s']|]; [|discriminate]. apply IH; assumption.
       + cbn [parse_tokens] in *. destruct (take_digits 2 s 0) as [[v s']|]; [|discriminate].
         destruct (_ && _)%bool; [|discriminate]. apply IH; assumption.
-      + cbn [parse_tokens] in *. destruct (take_digits 2 s 0) as [[v s']|]; [|discriminate].
+      + cbn [parse_tokens] in *. destruct (take_digits 2 s 0) as [[v s']|]; [|discriminate]. apply IH; assumption.
+      + cbn [parse_tokens] in *. destruct (get_num s) as [[v s']|]; [|discriminate]. apply IH; assumption.
+      + cbn [parse_tokens] in *. destruct (get_num (drop_one_space s)) as [[v s']|]; [|discriminate]. apply IH; assumption.
+      + cbn [parse_tokens] in *. destruct (get_num s) as [[v s']|]; [|discriminate].
         destruct (_ && _)%bool; [|discriminate]. apply IH; assumption.
+      + cbn [parse_tokens] in *. destruct (lookup_name short_months 1 s) as [[v s']|]; [|discriminate]. apply IH; assumption.
+      + cbn [parse_tokens] in *. destruct (lookup_name long_months 1 s) as [[v s']|]; [|discriminate]. apply IH; assumption.
       + destruct (N.eqb_spec c 32) as [->|Hc].
         * rewrite parse_tokens_space_eq in *. rewrite (drop_space_lits_app l sp F).
           pose proof (drop_space_lits_length l) as Hlen.
@@ -549,9 +900,9 @@ Qed.
 
 (** the date formatted without the spaces at the end of the layout is read under the layout *)
 Lemma format_parse_date_core toks cv :
-  civil_fits toks cv -> parse_date toks (format_date (layout_core toks) cv) = Some cv.
+  sep_ok toks = true -> civil_fits toks cv -> parse_date toks (format_date (layout_core toks) cv) = Some cv.
 Proof.
-  intros Hfit. pose proof (format_parse_date_fits _ _ (civil_fits_core _ _ Hfit)) as H.
+  intros Hsep Hfit. pose proof (format_parse_date_fits _ _ (sep_ok_core _ Hsep) (civil_fits_core _ _ Hfit)) as H.
   destruct (layout_core_split toks) as [sp [E F]]. set (core := layout_core toks) in *.
   unfold parse_date in *.
   destruct (parse_tokens core (format_date core cv) 0 1 1) as [r|] eqn:Ep; [|discriminate].
@@ -568,15 +919,17 @@ Proof.
   destruct (layout_core_split toks) as [sp [E F]]. set (core := layout_core toks) in *.
   exists (format_date sp cv). split; [rewrite E at 1; apply format_date_app|].
   rewrite format_date_concat. clear E. induction F as [|t sp -> _ IH]; [reflexivity|].
-  cbn [map concat]. destruct cv as [[y m] d]. cbn [tok_bytes]. rewrite all_in_app. rewrite IH. reflexivity.
+  cbn [map concat]. destruct cv as [[y m] d]. cbn [format_tok]. rewrite all_in_app. rewrite IH. reflexivity.
 Qed.
 
 (** the bytes of a date formatted under a safe layout *)
 Lemma format_date_bytes toks cv :
   forallb safe_tok toks = true -> civil_fits toks cv -> forallb date_byte (format_date toks cv) = true.
 Proof.
-  intros Hs Hfit. rewrite format_date_concat. revert Hs. generalize toks at 1 2. intros l.
-  induction l as [|t l IH]; intros Hl; [reflexivity|]. cbn [forallb] in Hl. apply andb_true_iff in Hl.
-  destruct Hl as [Ht Hl]. cbn [map concat]. rewrite forallb_app. rewrite (IH Hl).
-  destruct (tok_bytes_spec toks cv t Hfit Ht) as [Hb _]. rewrite Hb. reflexivity.
+  intros Hs Hfit. rewrite format_date_concat.
+  assert (G : forall l, forallb safe_tok l = true -> forallb date_byte (concat (map (format_tok cv) l)) = true).
+  { induction l as [|t l IH]; intros Hl; [reflexivity|]. cbn [forallb] in Hl. apply andb_true_iff in Hl.
+    destruct Hl as [Ht Hl]. cbn [map concat]. rewrite forallb_app. rewrite (IH Hl).
+    destruct (tok_bytes_spec toks cv t Hfit Ht) as [Hb _]. rewrite Hb. reflexivity. }
+  apply G, Hs.
 Qed.
